@@ -386,6 +386,7 @@ class Ombott:
                 environ[config.app_name_header] = '/' + app_name
                 environ["PATH_INFO"] = '/' + app_name + environ["PATH_INFO"]
 
+        out = None
         try:
             out = self._cast(self._handle(environ))
             # rfc2616 section 4.3
@@ -402,6 +403,9 @@ class Ombott:
         except (KeyboardInterrupt, SystemExit, MemoryError):
             raise
         except Exception as _e:
+            close = getattr(out, 'close', None)
+            if close:
+                close()
             if not self.config.catchall:
                 raise
 
